@@ -511,7 +511,7 @@ func (c *cl) scenarioReplicas(rounds int) error {
 				down = f.ID
 			}
 		case x < 7 && down != 0:
-			if err := c.startNode(down, false, nil); err != nil {
+			if err := c.startNode(down, false, c.seeds(down)); err != nil {
 				return fmt.Errorf("restart of node %d failed: %v", down, err)
 			}
 			down = 0
@@ -527,7 +527,7 @@ func (c *cl) scenarioReplicas(rounds int) error {
 		}
 	}
 	if down != 0 {
-		if err := c.startNode(down, false, nil); err != nil {
+		if err := c.startNode(down, false, c.seeds(down)); err != nil {
 			return fmt.Errorf("restart of node %d failed: %v", down, err)
 		}
 	}
@@ -610,7 +610,10 @@ func (c *cl) scenarioRestore(newNode bool, changeLeader bool, one bool, hist, aw
 			time.Sleep(300 * time.Millisecond)
 		}
 	}
-	var seeds []string
+	// a node is always (re)started with its configured seeds, as an operator's unit file does: a
+	// node with raft state ignores them, a node that never persisted any (new, or stopped right
+	// after it asked to join) needs them
+	seeds := c.seeds(3)
 	if newNode {
 		if l := c.leader(); l != nil {
 			seeds = []string{l.Addr}
